@@ -36,7 +36,7 @@ def diff(a, b, path='') -> Optional[str]:
 def documents(ctx: common.Ctx, n: int, *, auto_claim: Optional[bool] = None):
     sd.LF_PINNED = True          # this generator draws (and records) the load factor itself
     for _ in range(n):
-        lf = ctx.rng.choice([3, 6, 1000, 1000])
+        lf = ctx.rng.choice([2, 2, 3, 5, 1000])
         sd.set_load_factor(lf)
         text = gen_docs.ledger(ctx.rng)
         ac = auto_claim if auto_claim is not None else ctx.rng.random() < 0.8
@@ -53,6 +53,17 @@ def gen_edits(r: random.Random, f, n_edits: int, p_focus: float):
     """The edit histories of C05/C06 (and their replays): with probability p_focus most edits of the history hit
     one model (focused), otherwise every edit picks its model afresh. Yields (k, Edit or None) after applying."""
     focus = edits.pick_focus(r, f) if r.random() < p_focus else None
+    if focus is not None:
+        # read every public property of the focus model first: value-level views get created (and cached) before
+        # the raw-level edits that must keep them in step
+        for name in edits.class_props(type(focus)):
+            if not name.startswith('_'):
+                try:
+                    v = getattr(focus, name)
+                    if hasattr(v, '__len__') and not isinstance(v, str):
+                        list(v)
+                except Exception:
+                    pass
     only = edits.toggle_names(r, focus) if (focus is not None and r.random() < 0.6) else None
     for k in range(n_edits):
         on_focus = focus is not None and r.random() < 0.85
@@ -94,6 +105,8 @@ def run_c05(ctx: common.Ctx):
                 continue
             ok_edits += 1
             probs = treewalk.wf_problems(f)
+            if getattr(e, 'damaged_donor', False):
+                probs = probs or ['a node still attached elsewhere was accepted and its old tree was left damaged']
             if probs:
                 ctx.monitor_failure('C05:not-wf-after-edit', f'after {hist[-1]}: {probs[0]}',
                                     {'text': text, 'auto_claim': ac, 'lf': lf, 'edit_seed': seed, 'n_edits': k + 1, 'p_focus': 0.4,
@@ -133,6 +146,30 @@ def run_c05(ctx: common.Ctx):
         ctx.count('edits_applied', ok_edits)
 
 
+def value_views(root):
+    """What the value-level list views (tags, links, currencies, custom values …) of every model say, by path."""
+    from autobean_refactor.models import base
+    from autobean_refactor.models.internal import value_properties as vprops
+    from autobean_refactor.models.internal.repeated import Repeated
+    out = []          # in document order (paths differ between model and re-parse when comment entries differ)
+    for p, m in treewalk.walk(root):
+        if not isinstance(m, base.RawTreeModel) or isinstance(m, Repeated):
+            continue
+        for name in edits.class_props(type(m)):
+            if name.startswith('_') or name.startswith('raw_'):
+                continue
+            try:
+                v = getattr(m, name)
+            except Exception:
+                continue
+            if isinstance(v, vprops.RepeatedValueWrapper) and not isinstance(v, vprops.RepeatedFilteredNodeWrapper):
+                try:
+                    out.append((type(m).__name__, name, [repr(x) if not isinstance(x, base.RawModel) else treewalk.text_of(x) for x in v]))
+                except Exception as e:
+                    out.append((type(m).__name__, name, f'raised {type(e).__name__}'))
+    return out
+
+
 # ---- C06 -------------------------------------------------------------------------------------------
 def classify_c06(d: str, out: str) -> str:
     if '._values' in d:
@@ -166,6 +203,11 @@ def run_c06(ctx: common.Ctx):
             d = diff(treewalk.content(f), treewalk.content(g))
             if d:
                 ctx.monitor_failure(classify_c06(d, out), f'after {hist[-1]} the re-parsed document differs from the model at {d}', w)
+                break
+            d = diff(value_views(f), value_views(g))
+            if d:
+                sig = 'C06:value-view-differs-from-text'
+                ctx.monitor_failure(sig, f'after {hist[-1]} a value-level view of the model disagrees with the re-parsed text at {d}', w)
                 break
         ctx.case({'chars': len(text), 'lf': lf, 'history': hist[:6]}, nontrivial=ok_edits > 0)
         ctx.count('edits_applied', ok_edits)
@@ -655,3 +697,45 @@ def run_c15_comment_layouts(ctx: common.Ctx):
         sig = 'C15:nested-trailing-comment-claimed-by-parent' if got == ('x', None) else 'C15:comment-fields-differ'
         ctx.monitor_failure(sig, f'meta item built with trailing_comment="x" inside a posting prints {text!r} and reads back as '
                             f'(posting.trailing, meta.trailing) = {got}', {'printed': text})
+
+
+def run_c06_payee_grid(ctx: common.Ctx):
+    """Directed: every short payee / narration assignment sequence from every initial string layout; the printed
+    transaction must re-parse to the payee / narration the model reports."""
+    import itertools
+    from autobean_refactor import models
+    heads = ['2000-01-01 *', '2000-01-01 * "n"', '2000-01-01 * "p" "n"', '2000-01-01 * "" "n"', '2000-01-01 * "p" ""', '2000-01-01 * ""']
+    vals = [None, '', 'x']
+    ops = [(a, v) for a in ('payee', 'narration') for v in vals]
+    seqs = [[o] for o in ops] + [[o1, o2] for o1 in ops for o2 in ops]
+    for head in heads:
+        for seq in seqs:
+            text = head + '\n  Assets:A 1 USD\n  Assets:B\n'
+            f = gen_docs.parse_ok(text, True)
+            if f is None:
+                continue
+            t = f.raw_directives[0]
+            hist = []
+            ok = True
+            for a, v in seq:
+                hist.append(f'{a} = {v!r}')
+                try:
+                    setattr(t, a, v)
+                except Exception as e:
+                    hist[-1] += f' -> {type(e).__name__}'
+                    continue
+                out = treewalk.text_of(f)
+                g = gen_docs.parse_ok(out, True)
+                w = {'text': text, 'history': hist, 'printed': out}
+                if g is None:
+                    ctx.monitor_failure('C06:printed-text-rejected', f'{head!r}: after {hist} the printed transaction no longer parses', w)
+                    ok = False
+                    break
+                gt = g.raw_directives[0]
+                if (gt.payee, gt.narration) != (t.payee, t.narration):
+                    ctx.monitor_failure('C06:reparse-content-differs', f'{head!r}: after {hist} the model says (payee, narration) = '
+                                        f'{(t.payee, t.narration)!r} but the printed text {out.splitlines()[0]!r} re-parses to '
+                                        f'{(gt.payee, gt.narration)!r}', w)
+                    ok = False
+                    break
+            ctx.case({'head': head, 'history': hist}, nontrivial=True)
